@@ -36,12 +36,31 @@ func c14(r *Report) {
 	r.MustReach(MustReach{ID: "C14.save.tx-event-on-admission", Fn: wcl, SuccessOnly: true, Cond: ErrCheck(Fn(dag, "dag", "add")), Target: save, TargetOK: argIs("txEvent")})
 	r.MustReach(MustReach{ID: "C14.save.payload-event-when-payload-supplied", Fn: wcl, SuccessOnly: true,
 		Cond: CmpCheck("payload != nil", token.EQL, ParamV("payload"), NilV(), false), Target: save, TargetOK: argIs("payloadEvent")})
-	r.Gate(Gate{ID: "C14.save.failure-aborts-admission", Fn: wcl, Effect: SuccessReturn(), Check: Check{Desc: "saveEvent err == nil (all sites)", Call: &save, Result: -1, Pass: ErrNil, MinSite: 2},
+	r.Gate(Gate{ID: "C14.save.failure-aborts-admission", Fn: wcl, Effect: SuccessReturn(), Check: Check{Desc: "saveEvent err == nil (all sites)", Call: &save, Result: -1, Pass: ErrNil, MinSite: 2, EachSiteTested: true},
 		Alt: []Check{CallCheck(Fn(dag, "dag", "isPresent"), -1, IsTrue)}, Note: "each saveEvent error returns"})
 	c14FlagsMatchSaves(r, add, wcl)
 	wp := p.Func(dag, "state", "WritePayload")
 	wpcl := one(anonCalling(wp, save))
 	r.Gate(Gate{ID: "C14.save.writepayload-event", Fn: wpcl, Effect: SuccessReturn(), Check: ErrCheck(save)})
+	// the payload and the event that announces it are written in ONE write transaction (otherwise a stop between the
+	// two leaves a payload nobody is told about, and the payload fetcher considers the job done)
+	c14WritePayloadSameTx(r, wp, save)
+	// a failed live delivery is rescheduled unless the receiver declared the event fatal
+	nf := p.Func(dag, "notifier", "Notify")
+	asFatal := CallCheck(Fn("std:errors", "", "As"), -1, IsFalse)
+	asFatal.Desc = "errors.As(err, new(EventFatal)) is false"
+	asFatal.ArgOK = func(ci ssa.CallInstruction) string {
+		a := StripConv(ci.Common().Args[1])
+		if mi, ok := a.(*ssa.MakeInterface); ok {
+			a = mi.X
+		}
+		if !strings.Contains(a.Type().String(), "EventFatal") {
+			return "errors.As target is " + a.Type().String() + ", not *EventFatal"
+		}
+		return ""
+	}
+	r.MustReach(MustReach{ID: "C14.notify.failed-live-delivery-is-retried", Fn: nf, Cond: asFatal, Target: Fn(dag, "notifier", "retry")})
+	r.Gate(Gate{ID: "C14.notify.retry-decision-only-after-failure", Fn: nf, Effect: CallEffect(Fn("std:errors", "", "As")), Check: CallCheck(Fn(dag, "notifier", "notifyNow"), -1, NonNil)})
 	// (2)
 	c14NotifyOnlyAfterCommit(r)
 	// (3)
@@ -293,4 +312,37 @@ func c14Budget(r *Report, run *ssa.Function) {
 		return
 	}
 	r.OK(key+".attempts", rule, "", "attempts = maxRetries - (Retries+1)", false)
+}
+
+func c14WritePayloadSameTx(r *Report, wp *ssa.Function, save Callee) {
+	rule := "ORDER: WritePayload saves the payload event and writes the payload inside one and the same write transaction"
+	key := "C14.save.writepayload-same-tx"
+	if wp == nil {
+		r.Lost(key, rule, "WritePayload not found")
+		return
+	}
+	writes := Calls(wp, r.P.FnOrImpl(stoabsPkg, "KVStore", "Write"))
+	r.Sites += len(writes)
+	if len(writes) != 1 {
+		r.Bad(key, rule, r.P.Pos(wp.Pos()), fmt.Sprintf("%d write transactions in WritePayload (expected exactly 1)", len(writes)))
+		return
+	}
+	var cl *ssa.Function
+	for _, a := range writes[0].Common().Args {
+		if mc, ok := StripConv(a).(*ssa.MakeClosure); ok {
+			cl = mc.Fn.(*ssa.Function)
+			break
+		}
+	}
+	if cl == nil {
+		r.Lost(key, rule, "transaction closure not found")
+		return
+	}
+	nSave := len(Calls(cl, save))
+	nWrite := len(Calls(cl, r.P.FnOrImpl("network/dag", "PayloadStore", "writePayload")))
+	if nSave == 0 || nWrite == 0 {
+		r.Bad(key, rule, r.P.Pos(cl.Pos()), fmt.Sprintf("the transaction closure has %d saveEvent and %d writePayload calls", nSave, nWrite))
+		return
+	}
+	r.OK(key, rule, r.P.Pos(cl.Pos()), "one closure, both writes", true)
 }
